@@ -205,8 +205,7 @@ def evaluate(r, trains, edges, menu, be, rank=(), auto_only=False):
 
 
 def check_state(r, k, masks, task):
-    trains = [lattice.times(m) for m in masks]
-    edges = lattice.edges(k)
+    trains, edges = pairs.trains_edges(k, masks)
     ns = pairs.nspikes(masks)
     evaluate(r, trains, edges, task["menu"], task["backend"], (k, ns))
     if r.states % 997 == 1:
